@@ -4,12 +4,12 @@
 set -e
 cd "$(dirname "$0")"
 V=.venv
-if [ -x $V/bin/python ] && $V/bin/python -c 'import z3, jsonschema, crosshair, numpy, attr' 2>/dev/null; then
+if [ -x $V/bin/python ] && $V/bin/python -c 'import z3, jsonschema, crosshair, numpy, attr, sympy' 2>/dev/null; then
   exit 0
 fi
 rm -rf $V
 /venv/bin/python -m venv $V
 SP=$($V/bin/python -c 'import sysconfig; print(sysconfig.get_paths()["purelib"])')
 printf "import site; site.addsitedir('/venv/lib/python3.12/site-packages')\n" > $SP/overlay.pth
-PIP_NO_INDEX=1 $V/bin/pip install -q --no-index --find-links /opt/veriftools/wheels z3-solver crosshair-tool jsonschema cvc5 >/dev/null 2>$V/pip.err || { cat $V/pip.err; exit 3; }
-$V/bin/python -c 'import z3, jsonschema, crosshair, numpy, attr; print("verif venv ready, z3", z3.get_version_string())'
+PIP_NO_INDEX=1 $V/bin/pip install -q --no-index --find-links /opt/veriftools/wheels z3-solver crosshair-tool jsonschema cvc5 sympy >/dev/null 2>$V/pip.err || { cat $V/pip.err; exit 3; }
+$V/bin/python -c 'import z3, jsonschema, crosshair, numpy, attr, sympy; print("verif venv ready, z3", z3.get_version_string())'
